@@ -14,6 +14,7 @@ import (
 	"fmt"
 	"math/big"
 	"os"
+	"os/exec"
 	"sort"
 	"strings"
 
@@ -138,7 +139,73 @@ func runPair(o *op, a, b *big.Int) string {
 	}())
 }
 
+// ---------------------------------------------------------------- traces that depend on the call history
+//
+// A trace may legitimately depend on the PUBLIC call history (a table built on first use), never on the secrets. When the
+// in-process sequence shows two different traces for one operation and re-running the pair does not (the library kept
+// state from the earlier calls), the question "secret or history?" is decided with two fresh processes: sequence
+// A = (s_0 .. s_k) and sequence B = (s_0, s_0 .. s_0) have the same public history at every position, so their traces
+// must agree position by position; a difference is a secret-dependent path (for example a cache keyed by secret-derived
+// values that turns the earlier secrets into hits or misses).
+
+// seqChild (child process): runs the operation once per secret, cold start, prints one trace signature per line.
+func seqChild(opName string, secrets []string) {
+	o := findOp(opName)
+	if o == nil {
+		fmt.Println("ERR unknown operation")
+		os.Exit(0)
+	}
+	for _, h := range secrets {
+		v, _ := new(big.Int).SetString(h, 16)
+		t, _ := traced(o.prep(v), false)
+		fmt.Printf("T %016x %d %s|%s\n", t.hash, t.events, t.panicked, strings.Join(t.vartime, ","))
+	}
+	os.Exit(0)
+}
+
+func runSeqProcess(opName string, secrets []string) ([]string, string) {
+	cmd := exec.Command(os.Args[0], "-c17seq", opName, strings.Join(secrets, ","))
+	cmd.Env = os.Environ()
+	out, err := cmd.Output()
+	if err != nil {
+		return nil, "child process: " + err.Error()
+	}
+	var lines []string
+	for _, l := range strings.Split(string(out), "\n") {
+		if strings.HasPrefix(l, "T ") {
+			lines = append(lines, l)
+		}
+	}
+	if len(lines) != len(secrets) {
+		return nil, fmt.Sprintf("child process printed %d traces for %d secrets", len(lines), len(secrets))
+	}
+	return lines, ""
+}
+
+// runSeq: the replayable unit for history-dependent traces (two fresh processes).
+func runSeq(opName string, secrets []string) string {
+	a, e := runSeqProcess(opName, secrets)
+	if e != "" {
+		return e
+	}
+	same := make([]string, len(secrets))
+	for i := range same {
+		same[i] = secrets[0]
+	}
+	b, e := runSeqProcess(opName, same)
+	if e != "" {
+		return e
+	}
+	for i := range a {
+		if a[i] != b[i] {
+			return fmt.Sprintf("call #%d of the operation in a fresh process follows another path when the secrets of the calls so far are (s_0 .. s_%d) than when they are all s_0 - same public history, different secrets (trace signatures %s vs %s)", i+1, i, a[i], b[i])
+		}
+	}
+	return ""
+}
+
 func register() {
+	mc.Register("seq", func(d mc.D) string { return runSeq(d.S("op"), strings.Split(d.S("secrets"), ",")) })
 	mc.Register("pair", func(d mc.D) string {
 		o := findOp(d.S("op"))
 		if o == nil {
@@ -448,6 +515,9 @@ func main() {
 	R.Config(cfg + " (instrumented: " + fmt.Sprint(secp256k1.VerifRTNumIDs()) + " sites)")
 	buildOps(R.Thorough())
 	register()
+	if len(os.Args) == 4 && os.Args[1] == "-c17seq" {
+		seqChild(os.Args[2], strings.Split(os.Args[3], ","))
+	}
 	mc.MaybeReplay()
 	R.Rule("states = (operation, secret) pairs; a transition is one execution of the operation on the instrumented library with the trace monitor on; all traces of one operation (ordered basic blocks, function entries, every non-literal index value) must be identical and free of *Vartime* routines; non-trivial = secrets chosen to flip a potential secret-dependent decision (0-/F-heavy nibbles, 1, n-1, all four GLV sign classes, halves with leading zero bytes, both public-y parities)")
 	R.Assume("path equality over the alphabet is evidence for all secrets to the extent the alphabet spans the code's secret-dependent decisions; NOT visible to this monitor: the SSE2 assembly (equivalence with the instrumented portable code is C19), instruction-level timing, compiler-introduced branches, stdlib / x/crypto / tuplehash code called with secret bytes")
@@ -463,6 +533,7 @@ func main() {
 		var base trace
 		var baseSec *big.Int
 		sigs := map[uint64]int{}
+		rebased := 0
 		for si, s := range o.secrets {
 			t, _ := traced(o.prep(s.V), false)
 			R.T(1)
@@ -483,6 +554,26 @@ func main() {
 			if bad != "" {
 				d := mc.D{"op": o.name, "secret_a": mc.HexBig(orZero(baseSec, s.V)), "secret_b": mc.HexBig(s.V), "label_b": s.Label, "config": cfg}
 				m := runPair(o, orZero(baseSec, s.V), s.V)
+				if m == "" && bad == "trace differs from the first secret's trace" {
+					// not reproducible as a pair: the library kept state from the earlier calls. Secret or public history?
+					var hx []string
+					for _, q := range o.secrets[:si+1] {
+						hx = append(hx, q.V.Text(16))
+					}
+					R.T(int64(2 * len(hx)))
+					if ms := runSeq(o.name, hx); ms != "" {
+						R.Mismatch("ct/"+o.name+"/history/"+cfg, "seq", ms, mc.D{"op": o.name, "secrets": strings.Join(hx, ","), "config": cfg})
+						break
+					}
+					// the path depends on the position in the process only (public history): compare the rest with this trace
+					rebased++
+					R.Class(cfg+"/operations whose path depends on the public call history only (two-process comparison)", 1)
+					if rebased <= 3 {
+						base, baseSec = t, s.V
+						continue
+					}
+					break
+				}
 				if m == "" {
 					m = bad
 				}
